@@ -91,9 +91,10 @@ def gen_case(rng, malformed=False):
         out_ids = [i for i, _ in o["items"]]
         if style == "clean":
             ids = list(out_ids)
+            keep_order = rng.chance(1, 2)
         else:
             ids = [i for i in out_ids if rng.chance(3, 4)] + rng.sample([i for i in range(10, 26) if i not in out_ids], rng.randint(0, 2))
-        ids = rng.shuffle(ids)
+        ids = ids if (style == "clean" and keep_order) else rng.shuffle(ids)
         test.append({"key": list(pk), "items": [[i, gen_value(rng, 1 if style != "clean" else 0)] for i in ids]})
     if rng.chance(1, 6):
         test.append({"key": [9 for _ in tfields], "items": [[10, "3/1"]]})
@@ -113,6 +114,7 @@ def gen_case(rng, malformed=False):
             "default": fjson(Fraction(rng.randint(0, 12), 2)) if rng.chance(1, 3) else None,
         })
     return {"ofields": ofields, "tfields": tfields, "outputs": outputs, "test": test, "metrics": metrics,
+            "dtype": rng.choice(["f8", "f4"]),
             "style": style + ("/malformed" if malformed else "")}
 
 
@@ -164,10 +166,14 @@ def _setup():
     _ready = True
 
 
-def _ilist(items, field):
+def _ilist(items, field, dtype="f8"):
     ids = [i for i, _ in items]
     vals = [float("nan") if v is None else float(fparse(v)) for _, v in items]
-    return ItemList(item_ids=np.array(ids, dtype=np.int64), **{field: np.array(vals, dtype=np.float64)})
+    return ItemList(item_ids=np.array(ids, dtype=np.int64), **{field: np.array(vals, dtype=np.dtype(dtype))})
+
+
+def _snapshot(coll, field):
+    return [[None if (v != v) else float(v) for v in np.asarray(il.field(field), dtype=float).tolist()] for _, il in coll]
 
 
 def _metric(m):
@@ -190,10 +196,10 @@ def run_impl(case):
     _setup()
     outs = ItemListCollection.empty(case["ofields"])
     for o in case["outputs"]:
-        outs.add(_ilist(o["items"], "scores"), *o["key"])
+        outs.add(_ilist(o["items"], "scores", case.get("dtype", "f8")), *o["key"])
     tst = ItemListCollection.empty(case["tfields"])
     for t in case["test"]:
-        tst.add(_ilist(t["items"], "rating"), *t["key"])
+        tst.add(_ilist(t["items"], "rating", case.get("dtype", "f8")), *t["key"])
     ra = RunAnalysis()
     labels = []
     for m in case["metrics"]:
@@ -201,6 +207,7 @@ def run_impl(case):
         ra.add_metric(_metric(m), m["label"], d)
         labels.append(ra.metrics[-1].label)
     obs = {"labels": labels}
+    before = (_snapshot(outs, "score"), _snapshot(tst, "rating"))
     try:
         res = ra.measure(outs, tst)
     except ValueError as e:
@@ -210,6 +217,10 @@ def run_impl(case):
     raw = res.list_metrics(fill_missing=False)
     filled = res.list_metrics()
     obs["error"] = 0
+    obs["inputs_unchanged"] = before == (_snapshot(outs, "score"), _snapshot(tst, "rating"))
+    res2 = ra.measure(outs, tst)   # a second reading of the same lists must give the same table
+    a1, a2 = raw.to_numpy(dtype=float), res2.list_metrics(fill_missing=False).to_numpy(dtype=float)
+    obs["second_measure_equal"] = bool(a1.shape == a2.shape and np.array_equal(a1, a2, equal_nan=True))
     obs["columns"] = list(raw.columns)
     obs["raw"] = [[_num(v) for v in row] for row in raw.to_numpy(dtype=float).tolist()]
     obs["filled"] = [[_num(v) for v in row] for row in filled.to_numpy(dtype=float).tolist()]
@@ -271,6 +282,7 @@ def c_tbl(rows):
 
 
 def coq_term(case, obs):
+    TOL = "tol32" if case.get("dtype", "f8") == "f4" else "tol64"   # float32 lists are summed in float32
     allf = sorted(set(case["ofields"]) | set(case["tfields"]))
     fid = {f: i for i, f in enumerate(allf)}
     of = clist([fid[f] for f in case["ofields"]], cnat)
@@ -326,6 +338,13 @@ def _policy_error(m, out, tl):
 
 def oracle(case, obs):
     v = []
+    rel = 1e-5 if case.get("dtype", "f8") == "f4" else 1e-9
+
+    def _close(a, b, rel=rel):
+        if a is None or b is None:
+            return a is None and b is None
+        return abs(a - b) <= rel * max(1.0, abs(b))
+
     of, tf = case["ofields"], case["tfields"]
     if any(f not in of for f in tf):
         if obs["error"] != 2:
@@ -344,6 +363,10 @@ def oracle(case, obs):
     if obs["error"]:
         v.append(("spurious-error", f"measure raised although the policies allow every list: {obs.get('msg')}"))
         return v
+    if not obs.get("inputs_unchanged", True):
+        v.append(("inputs-mutated", "measure() changed the scores or ratings of the lists it was given"))
+    if not obs.get("second_measure_equal", True):
+        v.append(("second-measure-differs", "measuring the same collections a second time gave a different per-list table"))
     tm = [m for m in case["metrics"] if m["kind"] != "global"]
     for r, (o, tl) in enumerate(zip(case["outputs"], tests)):
         for c, m in enumerate(tm):
@@ -406,7 +429,7 @@ def oracle(case, obs):
                 statistics.median(col) if col else None,
                 statistics.stdev(col) if len(col) > 1 else None]
         got = [None if x is None else float(fparse(x)) for x in obs["summary"][c]]
-        if not all(_close(a, b, 1e-7) for a, b in zip(got, want)):
+        if not all(_close(a, b, max(rel, 1e-7)) for a, b in zip(got, want)):
             v.append(("summary", f"summary {got} != statistics of the filled column {want}"))
     # dedupe by key
     seen, out = set(), []
@@ -428,6 +451,7 @@ def nontrivial(case, obs):
 
 def counters(case, obs):
     yield "style=" + case["style"]
+    yield "dtype=" + case.get("dtype", "f8")
     yield f"error={obs['error']}"
     yield f"lists={len(case['outputs'])}"
     for m in case["metrics"]:
